@@ -62,8 +62,8 @@ def main():
         "error against the reference upper-tail quantile (own long double implementation: erfc / continued fraction and series of the regularised incomplete beta and gamma functions, safeguarded Newton; self-tested against closed forms at start) "
         "relative, absolute where |quantile| < 1, below 1e-6 / 5e-4 / 5e-3; strictly decreasing in alpha between neighbouring grid points; f(1-alpha) = -f(alpha) for Normal and Student; finite; "
         "the same monotonicity / symmetry / finiteness on a dyadic log grid of 641 alphas from 2^-41 (4.5e-13) to 1-2^-41 with exactly representable complements, every dof; "
-        "NormalDistribution(Normal(alpha)) = 1-alpha (upper-tail convention of statan.cpp) on both alpha grids within 1e-6 of the smaller tail + 1 ulp of 1.0; "
-        "Normal(NormalDistribution(x)) = -x for x = -40 .. 40 step 0.01 within 1e-6 relative (absolute below 1) wherever D(x) is a normal double in (0,1) and 1-D resolves x to 1e-7; "
+        "NormalDistribution(Normal(alpha)) = 1-alpha (upper-tail convention of statan.cpp) within 1e-6 of the smaller tail + 4.5e-16, and the resolvable form NormalDistribution(-|Normal(alpha)|) = min(alpha, 1-alpha) to 1e-6 relative, on both alpha grids and on a far grid 2^-j, 1.5*2^-j, j = 42..1021 (down to 4.5e-308; Normal also finite and strictly decreasing there); "
+        "x = -40 .. 40 step 0.01, judged wherever the true value is representable (Phi(x) >= DBL_MIN, i.e. x >= -37.5, on the lower side; 1-Phi(x) >= 4.5e-16, i.e. x <= 8.04, on the upper side): NormalDistribution(x) equals the reference erfc to 1e-6 of the smaller tail (+ 4.5e-16 = DBL_EPSILON stopping rule + 2 roundings for D near 1), and Normal(NormalDistribution(x)) = -x within 1e-6 relative (absolute below 1) + 4.5e-16/phi(x) on the upper side; a D of exactly 0 or 1 inside that range is a violation; "
         "evaluation = one oracle decision, non-trivial = grid points whose reference quantile or inverse was actually computed" % den,
         assumptions=["alpha between grid points, dof not in the list and alpha below 4.5e-13 are not covered",
                      "Normal/Student/Chi_square return the value exceeded with probability alpha (checked against statan.cpp); references use the matching upper tail",
